@@ -431,9 +431,41 @@ def cancels(s, facts, m1, m2) -> bool:
     return _unsat(s, *facts, m1 + m2 != 0, cap=FALLBACK_MS)  # (a non-linear identity asked of the solver directly: rarely decides anything)
 
 
+_abs_cnt = itertools.count()
+
+
+def _abstract_atoms(lhs, rhs):
+    """generalise the goal: closed sub-terms the normaliser treats as opaque atoms anyway (an If whose condition contains a
+    sum, e.g. a safe-division step size) are replaced by fresh constants when they are big.  lhs' == rhs' for arbitrary
+    values of the constants implies lhs == rhs; the side queries then no longer drag those terms along."""
+    found = {}
+
+    def walk(t, depth=0):
+        if depth > 60 or z3.is_quantifier(t) or not z3.is_app(t):
+            return
+        if z3.is_app_of(t, z3.Z3_OP_ITE) and t.sort() in (z3.RealSort(), z3.IntSort()) and contains_sum(t.arg(0)):
+            try:
+                big = len(t.sexpr()) > 400
+            except z3.Z3Exception:
+                big = False
+            if big:
+                found.setdefault(t.get_id(), t)
+                return
+        for c in t.children():
+            walk(c, depth + 1)
+
+    walk(lhs)
+    walk(rhs)
+    if not found:
+        return lhs, rhs
+    subs = [(t, z3.Const(f"abs!{next(_abs_cnt)}", t.sort())) for t in found.values()]
+    return z3.substitute(lhs, *subs), z3.substitute(rhs, *subs)
+
+
 def prove_equal(s: z3.Solver, lhs, rhs) -> bool:
     """True if  lhs == rhs  follows (under the assertions of s) by sum normalisation + cancellation"""
     try:
+        lhs, rhs = _abstract_atoms(lhs, rhs)
         expr = lhs - rhs
         if "sqrt" in expr.sexpr()[:100000]:
             expr = _pre_sqrt(s, expr)
@@ -525,7 +557,22 @@ def _eq_facts(s, limit=40):
 
 
 def prove_via_facts(s, a, b) -> bool:
-    for p, q in _eq_facts(s):
+    facts = _eq_facts(s)
+    # (1) rewrite: a fact  u(args) == expr  with u an uninterpreted application occurring in the goal (e.g. the assumed loop
+    # invariant  residual(i, c) == bhat(i, c) - sum_j A(i, j) x(j, c)) is used as a left-to-right rewrite of the goal
+    subs = []
+    for p, q in facts:
+        for u, e in ((p, q), (q, p)):
+            if z3.is_app(u) and u.num_args() > 0 and u.decl().kind() == z3.Z3_OP_UNINTERPRETED and not contains_sum(u) and not _mentions(e, u):
+                subs.append((u, e))
+    if subs:
+        try:
+            a2, b2 = z3.substitute(a, *subs), z3.substitute(b, *subs)
+            if not (a2.eq(a) and b2.eq(b)) and prove_equal(s, a2, b2):
+                return True
+        except z3.Z3Exception:
+            pass
+    for p, q in facts:
         for x, y in ((p, q), (q, p)):
             for g1, g2 in ((a, b), (b, a)):
                 try:
